@@ -12,6 +12,8 @@ import (
 	"context"
 	"fmt"
 	"os"
+	"runtime"
+	"runtime/debug"
 	"sort"
 	"strings"
 	"sync/atomic"
@@ -281,6 +283,17 @@ func (t *VTable) Merge(labels []int) string {
 	}
 	closeCh := make(chan struct{})
 	defer close(closeCh)
+	// The merger recycles decoders and buffers through sync.Pool. Whether a Get returns the object that was just Put
+	// depends on the P the goroutine runs on and on GC cycles; with one P and no GC during the merge the reuse is
+	// deterministic (always), which is the worst case for code that keeps references into a recycled buffer.
+	if os.Getenv("VERIF_MRW_POOL_DETERMINISTIC") != "0" {
+		oldP := runtime.GOMAXPROCS(1)
+		oldGC := debug.SetGCPercent(-1)
+		defer func() {
+			debug.SetGCPercent(oldGC)
+			runtime.GOMAXPROCS(oldP)
+		}()
+	}
 	np, err := t.tst.mergePartsThenSendIntroduction(creator, pws, merged, t.mergeCh, closeCh, typ)
 	if err != nil {
 		t.labels = append(t.labels, 0)
